@@ -512,7 +512,7 @@ fn run(args: &Args, rep: &mut Report) {
         prop_par(
             "random-styles",
             args.seed,
-            tier.pick(60_000, 1_000_000),
+            tier.pick(60_000, 10_000_000),
             || (arb_style(), prop::sample::select(ADAPTERS.to_vec())),
             |(m, a), acc: &mut Acc| match check(*a, m) {
                 Ok(rendered) => {
